@@ -186,8 +186,12 @@ def build_bf3(spec, env):
             comp.encrypt_by_session_key = True
             comps.append(comp)
             continue
-        comps.append(env.bf3file.Bf3Component(desc, make_blob(c["blob"]), c["alen"],
-                                              encrypt_by_session_key=c["enc"]))
+        if c["blob"].get("s", 0) % 2:
+            # the published signature: (description, blob, actual_len, encrypt_by_session_key), all positional
+            comps.append(env.bf3file.Bf3Component(desc, make_blob(c["blob"]), c["alen"], bool(c["enc"])))
+        else:
+            comps.append(env.bf3file.Bf3Component(desc, make_blob(c["blob"]), c["alen"],
+                                                  encrypt_by_session_key=c["enc"]))
     if spec.get("alias_first") and comps:
         comps.append(comps[0])          # the very same component object listed a second time
     # legal argument kinds: the constructor takes any iterable of components
